@@ -470,6 +470,8 @@ def check(model: Model, run: Run) -> None:
         if unknown:
             run.cannot('validate_announce_nlri: next-hop test not evaluable for %s' % sorted(unknown))
         run.check(not missing, vn.qualname, 'a missing next hop is refused for every family but FlowSpec (refused for %d SAFI)' % len(refused), vn.loc(nh_ret[0]), 'accepted without next hop: %s - UpdateCollection.messages() can encode none of them without one ("unexpected nlri definition"), so the definition is accepted and can not be sent' % missing)
+        over = sorted(refused & {'FLOW_IP', 'FLOW_VPN'})
+        run.check(not over, vn.qualname, 'a FlowSpec rule needs no next hop (refused without one: %s)' % (over or 'none'), vn.loc(nh_ret[0]), 'RFC 8955: a flow rule carries no next hop, and UpdateCollection.messages() sends both flow and flow-vpn rules without one: refusing %s at parse time makes `announce flow route { rd 65000:1; match {..} then {discard;} }` an error on the API, while the same rule from a configuration file loads and is then refused by the encoder' % over)
     asn = model.func('exabgp.bgp.message.open.asn.ASN.from_string')
     run.analysed(asn)
     mx4 = folder.class_attr('exabgp.bgp.message.open.asn.ASN', 'MAX_4BYTE')
